@@ -497,6 +497,57 @@ def case_mapping(case):
     return finish_case(I, res)
 
 
+SPECIAL_KEYS = {  # mapping key (Display of the special type) -> (IR builder name, Rust source)
+    "String": ("String", "String"), "U53": ("U53", "U53"), "I54": ("I54", "I54"), "u32": ("U32", "u32"), "u8": ("U8", "u8"), "bool": ("Bool", "bool"),
+    "f64": ("F64", "f64"), "char": ("Char", "char"), "()": ("Unit", "()"),
+}
+SPECIAL_WRAPS = ["plain", "vec", "option", "map_value", "generic_arg"]
+
+
+def case_mapping_special(case):
+    """a type mapping keyed by a primitive / special type (TypeScript and Python look these up by the type's Display) replaces it at
+    every position; the mapped text carries a symbolic character"""
+    lang, key, wrap = case
+    P = prog()
+    ir = IR(P.layout)
+    I = new_interp(P)
+    res = {"paths": 0, "violations": [], "case": list(case)}
+    sym = z3.BitVec("m", 32)
+
+    def entry(I):
+        I.assume(z3.And(z3.UGE(sym, 97), z3.ULE(sym, 122)))
+        mapped = RString([ord(c) for c in "Mapped"] + [sym])
+        lg = bharness.make_lang(I, lang, {"type_mappings": {key: mapped}})
+        t = ir.special(SPECIAL_KEYS[key][0])
+        if wrap == "vec":
+            t = ir.vec(t)
+        elif wrap == "option":
+            t = ir.option(t)
+        elif wrap == "map_value":
+            t = ir.hashmap(ir.simple("Other"), t)
+        elif wrap == "generic_arg":
+            t = ir.generic("Wrap", [t])
+        return bharness.format_type(I, lang, lg, t, [])
+
+    for kind, out, pc in I.explore(entry, max_paths=50):
+        res["paths"] += 1
+        if kind == "panic":
+            res["violations"].append({"kind": "panic", "msg": out.msg}); continue
+        if out.variant != 0:
+            continue
+        text = out.fields[0].chars
+        tpl = {"plain": "{0}", "vec": TEMPLATES[lang]["vec"], "option": TEMPLATES[lang]["option"], "map_value": TEMPLATES[lang]["map"].replace("{0}", "Other").replace("{1}", "{0}"),
+               "generic_arg": TEMPLATES[lang]["generic"].replace("{n}", "Wrap").replace("{a}", "{0}")}[wrap]
+        a, b = tpl.split("{0}")
+        want = [ord(c) for c in a] + [ord(c) for c in "Mapped"] + [sym] + [ord(c) for c in b]
+        c = seq_eq(I, text, want)
+        m = I.sat_model(z3.Not(c) if not isinstance(c, bool) else z3.BoolVal(not c))
+        if m is not None:
+            got = "".join(chr(x) if isinstance(x, int) else chr(m.eval(x, model_completion=True).as_long()) for x in text)
+            res["violations"].append({"kind": "mapping-special", "key": key, "got": got, "mapped": "Mapped" + chr(m.eval(sym, model_completion=True).as_long())})
+    return finish_case(I, res)
+
+
 KEY_STRING = {"typescript": "string", "kotlin": "String", "swift": "String", "scala": "String", "go": "string", "python": "str"}
 
 
@@ -533,9 +584,11 @@ def run(rep, tier, only=None):
     rep.bounds = {"parser": "type trees to depth %d (%d trees) at field + one rotating position of {newtype, alias, serialized_as, const}; user names symbolic (3 chars)" % (depth, len(tr)),
                   "shapes": "6 constructors x argument types from a pool of %d (depth <= 2) x 6 languages" % len(pl),
                   "primitives": "14 primitives x 6 languages; integer ranges decided by z3", "mappings": "symbolic 3-char type name and mapping key at 6 positions, with/without prefix, as user type or generic parameter"}
-    rep.outside = ["usize/isize/u64/i64 (rejected by the parser, C08)", "Swift `char` (Unicode.Scalar: Codable conformance is user code)", "container mappings such as \"Vec<u8>\" for TS/Go/Python (keyed by to_string of the special type)"]
+    rep.outside = ["usize/isize/u64/i64 (rejected by the parser, C08)", "Swift `char` (Unicode.Scalar: Codable conformance is user code)", "container-instance mappings such as \"Vec<u8>\" (C12 exercises the Uint8Array / bytes mappings)"]
     rep.assumptions = ["target type ranges/categories are an independent table in checks/c05.py (Go `int` taken as 32 bits)", "documented target shapes (templates) restated in checks/c05.py"]
-    groups = [("parser", "case_p", p_cases), ("shape", "case_shape", s_cases), ("primitive", "case_prim", pr_cases), ("mapping", "case_mapping", m_cases)]
+    ms_cases = [(lang, k, w) for lang in ("typescript", "python") for k in SPECIAL_KEYS for w in SPECIAL_WRAPS]
+    rep.bounds["special-type mappings"] = "TypeScript and Python: a mapping keyed by %s, at positions %s, mapped text with a symbolic character" % (sorted(SPECIAL_KEYS), SPECIAL_WRAPS)
+    groups = [("parser", "case_p", p_cases), ("shape", "case_shape", s_cases), ("primitive", "case_prim", pr_cases), ("mapping", "case_mapping", m_cases), ("mapping-special", "case_mapping_special", ms_cases)]
     reported = set()
     for gname, fn, cases in groups:
         if only and gname not in only:
@@ -580,6 +633,8 @@ def run(rep, tier, only=None):
                     sig["constructor"] = case[1]
                 if gname == "mapping":
                     sig.update(wrap=case[1], prefix=case[2], generic=case[3])
+                if gname == "mapping-special":
+                    sig.update(key=case[1], wrap=case[2])
                 key = tuple(sorted((k, str(x)) for k, x in sig.items()))
                 if key in reported:
                     continue
@@ -632,6 +687,20 @@ def native_b(nat, gname, case, v):
         if v["got"] in out and v["want"] not in out:
             return True, "%s translates `%s` to `%s`, expected shape `%s`" % (lang, ty, v["got"], v["want"]), {"source": src, "lang": lang, "config": cfg, "needle": v["got"]}
         return False, "got %r / want %r vs real %r" % (v["got"], v["want"], out[:300]), None
+    if gname == "mapping-special":
+        _, key, wrap = case
+        rs = SPECIAL_KEYS[key][1]
+        ty = {"plain": "%s", "vec": "Vec<%s>", "option": "Option<%s>", "map_value": "HashMap<Other, %s>", "generic_arg": "Wrap<%s>"}[wrap] % rs
+        src = "#[typeshare]\npub struct A { pub f: %s }\n" % ty
+        cfg = dict(cfg)
+        cfg["type_mappings"] = {key: v.get("mapped", "Mappedx")}
+        r = nat.ask({"op": "generate", "lang": lang, "files": [{"source": src}], "config": cfg})
+        out = r.get("out", {}).get("", None)
+        if out is None:
+            return None, str(r)[:200], None
+        if v.get("mapped", "Mappedx") not in out:
+            return True, "%s with type_mappings {%s: %s} translates the field type `%s` without using the mapping: %s" % (lang, key, v.get("mapped"), ty, [l for l in out.split("\n") if "f:" in l or "f?" in l][:1]), {"source": src, "lang": lang, "config": cfg, "needle": v["got"]}
+        return False, "mapped name present in real output", None
     # mapping
     _, wrap, prefix, generic = case
     name, key = v["name"], v["key"]
